@@ -214,9 +214,34 @@ func (i *mapInjector) setElem(_ int, key, value interface{}, keyWasNull, valueWa
 			return errWrongElementType("map value", valueType, newValue.Type())
 		}
 	}
-	if !newKey.Type().Comparable() {
-		return errMapKeyNotHashable(newKey.Type())
+	if !isHashable(newKey) {
+		return errMapKeyNotHashable(newKey)
 	}
 	i.dest.SetMapIndex(newKey, newValue)
 	return nil
+}
+
+// isHashable reports whether v can be used as a map key without panicking: the dynamic values held by interfaces,
+// array elements and struct fields must all be of comparable types.
+func isHashable(v reflect.Value) bool {
+	switch v.Kind() {
+	case reflect.Interface:
+		return v.IsNil() || isHashable(v.Elem())
+	case reflect.Array:
+		for i := 0; i < v.Len(); i++ {
+			if !isHashable(v.Index(i)) {
+				return false
+			}
+		}
+		return true
+	case reflect.Struct:
+		for i := 0; i < v.NumField(); i++ {
+			if !isHashable(v.Field(i)) {
+				return false
+			}
+		}
+		return true
+	default:
+		return v.Type().Comparable()
+	}
 }
